@@ -214,7 +214,7 @@ type c05VecCase struct {
 }
 
 func genC05Vec(t *rapid.T) c05VecCase {
-	c := c05VecCase{Mode: rapid.SampledFrom([]string{"sparse", "sparse", "dense", "recipes", "recipes"}).Draw(t, "mode"), Seed: rapid.Uint64().Draw(t, "seed"),
+	c := c05VecCase{Mode: rapid.SampledFrom([]string{"sparse", "sparse", "dense", "recipes", "recipes", "allsame"}).Draw(t, "mode"), Seed: rapid.Uint64().Draw(t, "seed"),
 		Noise: noiseSeedFrom(rapid.Uint64().Draw(t, "noise"))}
 	c.Len = rapid.SampledFrom([]int{0, 1, 2, 3, 4, 5, 6, 7, 8, 16, 17, 64, 127, 128, 129, 200, 255, 256, 256, 256}).Draw(t, "len")
 	if rapid.IntRange(0, 3).Draw(t, "len_any") == 0 {
@@ -222,6 +222,8 @@ func genC05Vec(t *rapid.T) c05VecCase {
 	}
 	widths := []int{8, 16}
 	switch c.Mode {
+	case "allsame":
+		c.Scalars = []scalarSpec{genScalar(t, "same", widths)}
 	case "sparse", "recipes":
 		if c.Len > 0 {
 			k := rapid.IntRange(1, 6).Draw(t, "nhot")
@@ -250,6 +252,11 @@ func (c c05VecCase) vector() []*big.Int {
 	}
 	for j, h := range c.Hot {
 		v[h] = c.Scalars[j].value()
+	}
+	if c.Mode == "allsame" && len(c.Scalars) > 0 { // every coefficient equal
+		for i := range v {
+			v[i] = c.Scalars[0].value()
+		}
 	}
 	return v
 }
